@@ -5,7 +5,7 @@ import z3
 from lib.common import Report, Inconclusive, mir_dump, beffdrv, REPO, seed
 from mirsym.mir import Index, Layouts
 from mirsym.interp import Engine, Unmodelled, BoundHit, Panic
-from checks import c06_bdd
+from checks import c06_bdd, c06_dnf
 
 PID = 'C06'
 
@@ -93,6 +93,105 @@ def layer1(eng, rep, tier):
             rep.note_inconclusive(f'layer1 {op}: seeded wrong contract {wrong} not detected')
         else:
             out['witness_mutant'] += 1
+    return out
+
+
+def _ev(model, t):
+    v = model.eval(t, model_completion=True)
+    return v.as_long()
+
+
+def layer2(eng, rep, tier):
+    out = {'cases': 0, 'paths': 0, 'queries': 0, 'solver_s': 0.0, 'samples': [], 'witness_reach': 0, 'witness_mutant': 0}
+
+    def account(r):
+        out['cases'] += 1
+        out['paths'] += r['paths']
+        out['queries'] += r['obligation_queries'] + r['feasibility_queries']
+        out['solver_s'] += r['solver_s']
+        if len(out['samples']) < 3:
+            out['samples'] += r['samples'][:1]
+    top = 2 if tier == 'quick' else 3
+    for np_ in range(top + 1):
+        for nn in range(top + 1):
+            r = c06_dnf.run_recursive(eng, np_, nn)
+            account(r)
+            for st, model, why in r['sat']:
+                # context-free replay: any mis-translation of a diagram shows up in the native bdd -> dnf -> bdd round trip of a
+                # diagram that leads to the failing sub-diagram under the same positive/negative context
+                cands = [{'op': 'dnf_roundtrip', 'x': d} for d in _dnf_replay_candidates(np_, nn)]
+                hit = None
+                for c in cands:
+                    res = {p: beffdrv('bddop', c, profile=p) for p in ('dev', 'release')}
+                    if any(x.get('panic') or x.get('crash') or x.get('tt_result') != x.get('tt_expected') for x in res.values()):
+                        hit = (c, res)
+                        break
+                if hit:
+                    rep.violation(f'dnf:bdd_to_dnf:{why}', f'bdd_to_dnf changes membership ({why}); native round trip differs', {'cmd': 'bddop', 'input': hit[0], 'native': hit[1]})
+                else:
+                    rep.note_inconclusive(f'layer2 bdd_to_dnf_recursive ({np_},{nn}) path {st.decisions}: {why}; native candidates did not reproduce')
+    r = c06_dnf.run_wrapper(eng)
+    account(r)
+    for st, model, why in r['sat']:
+        rep.note_inconclusive(f'layer2 bdd_to_dnf wrapper: {why} (no native realisation implemented)')
+    import itertools
+    sizes = [(a, b) for a in range(3) for b in range(3)]
+    shapes = [[]] + [[s] for s in sizes] + [[s, t] for s in sizes for t in sizes]
+    if tier != 'quick':
+        shapes += [[(1, 1), s, t] for s in sizes for t in sizes]
+    for shape in shapes:
+        r = c06_dnf.run_dnf_to_bdd(eng, shape)
+        account(r)
+        for st, model, why in r['sat']:
+            conjs = []
+            for ci, (np_, nn) in enumerate(shape):
+                conjs.append({'pos': [_named(model, f'c{ci}p{i}') for i in range(np_)], 'neg': [_named(model, f'c{ci}n{i}') for i in range(nn)]})
+            inp = {'op': 'dnf_to_bdd', 'conjs': conjs}
+            res = {p: beffdrv('bddop', inp, profile=p) for p in ('dev', 'release')}
+            if any(x.get('panic') or x.get('crash') or x.get('tt_result') != x.get('tt_expected') for x in res.values()):
+                rep.violation(f'dnf:dnf_to_bdd:{len(shape)}', f'dnf_to_bdd changes membership for {json.dumps(conjs)}', {'cmd': 'bddop', 'input': inp, 'native': res})
+            else:
+                rep.note_inconclusive(f'layer2 dnf_to_bdd {shape}: counterexample did not reproduce natively: {json.dumps(conjs)}')
+    # twins
+    tw = c06_dnf.run_recursive(eng, 1, 1, reach_twin=True)
+    if tw['paths'] and len(tw['sat']) == tw['paths']:
+        out['witness_reach'] += 1
+    else:
+        rep.note_inconclusive('layer2: reachability twin failed')
+    tw = c06_dnf.run_recursive(eng, 1, 1, wrong=True)
+    tw2 = c06_dnf.run_dnf_to_bdd(eng, [(1, 1)], wrong=('intersect', 'union'))
+    if tw['sat'] and tw2['sat']:
+        out['witness_mutant'] += 2
+    else:
+        rep.note_inconclusive('layer2: seeded wrong contract not detected')
+    out['solver_s'] = round(out['solver_s'], 3)
+    return out
+
+
+def _named(model, name):
+    for d in model.decls():
+        if d.name() == name:
+            return model[d].as_long()
+    return 0
+
+
+def _dnf_replay_candidates(np_, nn):
+    """small diagrams over 4 atoms exercising every branch kind under a context of np_ positive / nn negative atoms"""
+    leaves = ['T', 'F']
+    base = []
+    for l in leaves:
+        for m in leaves:
+            for r in leaves:
+                base.append({'a': 3, 'l': l, 'm': m, 'r': r})
+                base.append({'a': 2, 'l': {'a': 3, 'l': l, 'm': m, 'r': r}, 'm': m, 'r': {'a': 3, 'l': r, 'm': 'F', 'r': l}})
+    out = []
+    for b in base:
+        x = b
+        for i in range(nn):
+            x = {'a': 1, 'l': 'F', 'm': 'F', 'r': x}
+        for i in range(np_):
+            x = {'a': 0, 'l': x, 'm': 'F', 'r': 'F'}
+        out.append(x)
     return out
 
 
@@ -331,6 +430,15 @@ def main(tier):
     except Panic as e:
         rep.note_inconclusive(f'layer1: executed code panics under the harness: {e}')
         l1 = {'paths': 0, 'queries': 0, 'solver_s': 0, 'samples': []}
+    try:
+        l2 = layer2(eng, rep, tier)
+        cov['layer2_dnf_modular'] = l2
+    except (Unmodelled, BoundHit) as e:
+        rep.note_inconclusive(f'layer2: {type(e).__name__}: {e}')
+        l2 = {'paths': 0, 'queries': 0, 'solver_s': 0, 'samples': []}
+    except Panic as e:
+        rep.note_inconclusive(f'layer2: executed code panics under the harness: {e}')
+        l2 = {'paths': 0, 'queries': 0, 'solver_s': 0, 'samples': []}
     agg, executed, models, witness = layers34(rep, tier)
     cov['layer3_literal_sets'] = agg[3]
     cov['layer4_semtype_merge'] = agg[4]
@@ -339,11 +447,11 @@ def main(tier):
         eng.executed[k] = eng.executed.get(k, 0) + v
     for k, v in models.items():
         eng.models_used[k] = eng.models_used.get(k, 0) + v
-    obligations = l1['paths'] + agg[3]['paths'] + agg[4]['paths']
+    obligations = l1['paths'] + l2['paths'] + agg[3]['paths'] + agg[4]['paths']
     l1 = dict(l1)
-    l1['queries'] = l1['queries'] + agg[3]['queries'] + agg[4]['queries']
-    l1['solver_s'] = l1['solver_s'] + agg[3]['solver_s'] + agg[4]['solver_s']
-    l1['samples'] = l1['samples'][:3] + agg[3]['samples'][:2] + agg[4]['samples'][:2]
+    l1['queries'] = l1['queries'] + l2['queries'] + agg[3]['queries'] + agg[4]['queries']
+    l1['solver_s'] = l1['solver_s'] + l2['solver_s'] + agg[3]['solver_s'] + agg[4]['solver_s']
+    l1['samples'] = l1['samples'][:3] + l2['samples'][:2] + agg[3]['samples'][:2] + agg[4]['samples'][:2]
     coverage = {
         'explanation': 'Bounded symbolic execution of the real MIR bodies (mirsym, z3). Each obligation is one path of one real '
                        'function body with a solver query over all remaining symbolic scalars (truth tables of opaque children, atom '
@@ -352,6 +460,9 @@ def main(tier):
         'std_models_used': eng.models_used,
         'bounds': {'layer1': '4 atoms (16-bit truth tables), one unfolding of each body, recursive calls replaced by contracts; '
                              'arbitrary depth below the root by assume/guarantee',
+                   'layer2': 'bdd_to_dnf_recursive: one unfolding under a context of <= %d positive and <= %d negative symbolic atoms, recursive '
+                             'calls by contract; dnf_to_bdd: DNFs of <= %d conjunctions with <= 2 positive and <= 2 negative symbolic atoms each, BDD '
+                             'operations by the layer-1 contracts' % ((2, 2, 2) if tier == 'quick' else (3, 3, 3)),
                    'layer3': 'ProperSubtypeOps on Boolean/Number/String/TypedArray: literal lists of length <= %d per operand, any (unsorted, '
                              'possibly repeating) 64-bit integer literals / opaque totally ordered strings / typed-array kinds, both allowed flags; '
                              'real sub_vec_union/intersect/diff underneath' % (2 if tier == 'quick' else 3),
